@@ -51,7 +51,7 @@ MIN_HITS = {
         'mon:finite': 400, 'mon:range': 200, 'mon:member': 200, 'mon:identity': 60, 'mon:unbiased': 80,
         'mon:tern': 100, 'mon:ternbias': 30, 'mon:drive': 40, 'mon:linear': 200, 'mon:errbound': 100,
         'mon:clientkeys': 20, 'mon:rounds': 60, 'mon:bits': 400, 'mon:zerodraw': 15, 'hook:uq': 300, 'hook:tq': 100, 'hook:rot': 200,
-        'class:zero-leaf-drive': 2, 'class:identical-clients': 10, 'class:many-clients': 5, 'coords:unbiased-offgrid': 2000,
+        'class:zero-leaf-drive': 2, 'class:identical-clients': 10, 'class:many-clients': 5, 'class:huge-cohort': 4, 'coords:unbiased-offgrid': 2000,
     },
     'thorough': {
         'mon:finite': 4000, 'mon:range': 2000, 'mon:member': 2000, 'mon:identity': 600, 'mon:unbiased': 800,
@@ -886,6 +886,33 @@ def run_agg(ctx, jax, jnp, C):
   hook(C.walsh_hadamard, 'structured_rotation_pytree', 'rot', 1)
   per_client_tags = {'uniform': ['uq'], 'arith': ['uq'], 'rotated': ['uq'], 'drive': ['rot'], 'tern': ['tq']}
   per_round_tags = {'uniform': ['uq'], 'arith': ['uq'], 'rotated': ['uq', 'rot'], 'drive': ['rot'], 'tern': ['tq']}
+
+  # ---- very large cohorts (129..260 clients): only the key discipline is judged (one general-weight apply, keys
+  #      recorded by the hook must be pairwise distinct), no one-hot probes -- cheap, one case per aggregator kind
+  for cid, rng in ctx.cases('hugecohort', len(KINDS) * (1 if ctx.quick else 6)):
+    i = int(cid.split('/')[1])
+    kind = KINDS[i % len(KINDS)]
+    K = int(rng.randint(129, 261))
+    base = jnp.asarray(rng.randn(8).astype(np.float32))
+    clients = [(b'h%03d' % j, {'w': base}, 1.0 + (j % 3)) for j in range(K)]
+    wit = {'family': 'hugecohort', 'kind': kind, 'clients': K}
+    r0 = ctx.call(f'agg.{kind}.init', lambda: (lambda a: (a, a.init()))(build(kind, 4, jax.random.PRNGKey(int(rng.randint(2**31 - 1))))),
+                  witness=wit)
+    if r0.ok:
+      agg, state = r0.value
+      rec['buf'] = []
+      try:
+        r = ctx.call(f'agg.{kind}.apply', agg.apply, clients, state, witness=wit)
+      finally:
+        used, rec['buf'] = rec['buf'], None
+      if r.ok:
+        for tag in per_client_tags[kind]:
+          ks = [k_ for t_, k_ in used if t_ == tag and k_ is not None]
+          ctx.check(len(ks) == K and len(set(ks)) == len(ks), f'clientkeys/{kind}-same-key-for-two-clients',
+                    f'{len(ks)} per-client {tag} calls for {K} clients used only {len(set(ks))} distinct PRNG keys',
+                    {**wit, 'hook': tag, 'first_repeat': next((j for j, k_ in enumerate(ks) if k_ in ks[:j]), None)})
+        ctx.count('class:huge-cohort')
+    ctx.case_done(('hugecohort', kind, K), sample=wit, klass=['hugecohort', f'agg:{kind}'])
 
   for cid, rng in ctx.cases('agg', P * len(KINDS) * sweeps):
     i = int(cid.split('/')[1])
